@@ -113,7 +113,10 @@ impl InferShapes for Div {
     ) -> Result<Vec<SymTensor>, InferShapesError> {
         let div = |x: &SymExpr, y: &SymExpr| {
             Some(match (x, y) {
-                (SymExpr::Value(x), SymExpr::Value(y)) if *y != 0 => SymExpr::Value(x / y),
+                // `checked_div` also excludes `i32::MIN / -1`, which overflows.
+                (SymExpr::Value(x), SymExpr::Value(y)) if x.checked_div(*y).is_some() => {
+                    SymExpr::Value(x / y)
+                }
                 _ => x.clone() / y.clone(),
             })
         };
@@ -222,8 +225,15 @@ impl InferShapes for Where {
                     }
                 })
                 .collect();
-            if let Some(vals) = vals {
-                return Ok([SymTensor::from_vec(vals)].into());
+            if let Some(mut vals) = vals {
+                // The output is a scalar if all of the inputs are.
+                let all_scalar = [cond, x, y].iter().all(|t| t.ndim() == Some(0));
+                let output = if all_scalar && vals.len() == 1 {
+                    SymTensor::from_scalar(vals.remove(0))
+                } else {
+                    SymTensor::from_vec(vals)
+                };
+                return Ok([output].into());
             }
         }
 
